@@ -67,6 +67,11 @@ func (p *parser) concat() (*node, error) {
 		for p.i < len(p.s) && (p.s[p.i] == '*' || p.s[p.i] == '+' || p.s[p.i] == '?') {
 			a = &node{kind: p.s[p.i], kids: []*node{a}}
 			p.i++
+			// a '?' straight after a quantifier makes it lazy: which match is
+			// preferred changes, whether the whole string matches does not
+			if p.i < len(p.s) && p.s[p.i] == '?' {
+				p.i++
+			}
 		}
 		kids = append(kids, a)
 	}
